@@ -31,7 +31,8 @@ for p in props:
         subprocess.run(['git', '-C', '/repo', 'worktree', 'add', '-q', '--detach', wt, 'HEAD'], check=True)
     classic = """What is wanted this time are the CLASSIC small mistakes a maintainer makes while editing this code, one per change, for example: an off-by-one or a wrong comparison operator (< vs <=), a wrong variable / swapped arguments of the same type, a missing or misplaced copy, an update applied in the wrong order or one statement too early / too late, a wrong default or constant, a condition that is right for the common case and wrong for a boundary (empty, first, last, single element, equal values), a dropped term of a formula, a sign error, integer instead of true division, a missing normalisation. Each change is a few lines at most and must look like an honest edit, not sabotage."""
     shared = f"""What is wanted this time are regressions that enter through code the property's own files DEPEND ON rather than through those files themselves: at least TWO of your three changes must be made OUTSIDE the anchored files listed above - in a base class, a shared helper or utility, a validator, a wrapper, a tracker or storage the anchored code uses, a package `__init__`, a default argument or class attribute (look through {wt}/ixai/explainer/base.py, ixai/utils/validators/, ixai/utils/wrappers/, ixai/utils/tracker/, ixai/storage/, ixai/imputer/ and the package `__init__` files) - and still make the STATED property fail when observed through the public API of the anchored classes. The third change may be anywhere. Typical honest edits of this kind: a helper generalised for a new caller and now subtly different for the old one, a validator that normalises / wraps / copies its argument differently, a base-class default or attribute changed, a shared function made to return a view / generator / other container type instead of a list or dict, an added cache or early return in a utility, a changed exception type, a renamed keyword forwarded wrongly. Each change is a few lines at most and must look like an honest edit, not sabotage."""
-    wanted = classic if style == 'classic' else shared
+    coop = f"""What is wanted this time are changes that need something SPECIFIC to manifest, of one of these two kinds (deliver one of each if you can): (a) TWO COOPERATING SITES - two small edits in different functions / classes / files that each look fine (and each, applied alone, leaves the property intact) but together break the stated property, e.g. a producer that now returns a view / alias / lazily evaluated object plus a consumer that now mutates or re-reads it, a flag or counter set in one place and interpreted with a slightly different meaning in another, a unit / sign / normalisation convention changed on one side of an interface and only half-adapted on the other; (b) a MULTI-STEP HISTORY - a change that is invisible for any single call and any fresh object and shows only after a particular sequence of public operations (e.g. update, then read, then update again; explain after a reset / re-configuration; the second object constructed in a process; a storage that has been full, then observed k more items; an interleaving of two explainers / trackers sharing a storage or a model). Each change is a few lines per site and must look like an honest edit, not sabotage. You have about 12 minutes in total: prefer two solid changes over three."""
+    wanted = {'classic': classic, 'shared': shared, 'coop': coop}[style]
     prev = '\n'.join(f' ({i + 1}) "{c}"' for i, c in enumerate(earlier))
     text = f"""You are helping evaluate a verification framework by writing THREE small, independent, realistic regressions ("seeded bugs") for the Python library HammerLabML/iXAI (incremental PFI / SAGE feature importance for streaming models, with storages, imputers, running-statistic trackers and model wrappers).
 
